@@ -29,10 +29,14 @@ impl Iterator for Points {
     type Item = Point;
 
     fn next(&mut self) -> Option<Self::Item> {
-        self.current_scanline.next().or_else(|| {
+        loop {
+            if let Some(point) = self.current_scanline.next() {
+                return Some(point);
+            }
+
+            // Rows without any point inside the ellipse are returned as empty scanlines.
             self.current_scanline = self.scanlines.next()?;
-            self.current_scanline.next()
-        })
+        }
     }
 }
 
@@ -66,7 +70,8 @@ impl Iterator for Scanlines {
 
         let scaled_y = y * 2 - self.center_2x.y;
 
-        self.columns
+        let scanline = self
+            .columns
             .clone()
             // Find the first pixel that is inside the ellipse.
             .find(|x| {
@@ -75,6 +80,11 @@ impl Iterator for Scanlines {
             })
             // Shorten the right side of the scanline by the same amount as the left side.
             .map(|x| Scanline::new(y, x..self.columns.end - (x - self.columns.start)))
+            // The first and last rows of thin ellipses can contain no points. Return an empty
+            // scanline for these rows, because `None` would end the iteration too early.
+            .unwrap_or_else(|| Scanline::new_empty(y));
+
+        Some(scanline)
     }
 }
 
